@@ -32,6 +32,7 @@ class SimMachine(object):
     def __init__(self, width=2, height=2, buffer_size=256, root=(0, 0)):
         self.width, self.height = width, height
         self.buffer_size = buffer_size
+        self.app_buffer_size = None     # what an application core's SARK reports in its own sver reply
         self.root = root
         self.mem = {}            # (x, y) -> {addr: byte}
         self.requests = []       # parsed requests in execution order
@@ -68,7 +69,10 @@ class SimMachine(object):
     def cmd_0(self, req):
         x, y = req["x"], req["y"]
         arg1 = ((x << 8 | y) << 16) | (req["p"] << 8) | req["p"]
-        arg2 = (0xffff << 16) | self.buffer_size       # version 0xffff: string-encoded version
+        size = self.buffer_size
+        if req["p"] != 0 and self.app_buffer_size is not None:
+            size = self.app_buffer_size                 # answered by that core's SARK, not by SC&MP
+        arg2 = (0xffff << 16) | size                    # version 0xffff: string-encoded version
         return OK, (arg1, arg2, 1400000000), b"SC&MP/SpiNNaker\x002.1.0\x00"
 
     # READ (2): arg1 address, arg2 length, arg3 type
